@@ -20,7 +20,7 @@ REPLAYS = EVID / "replays"
 DRIVER = LEAN / ".lake" / "build" / "bin" / "driver"
 ALLOWED_AXIOMS = {"propext", "Classical.choice", "Quot.sound"}
 FORBIDDEN = re.compile(
-    r"\bsorry\b|\badmit\b|^\s*axiom\s|native_decide|bv_decide|implemented_by|\bunsafe\s|maxHeartbeats\s+0\b",
+    r"\bsorry\b|\badmit\b|^\s*axiom\s|native_decide|bv_decide|implemented_by|(^|\s)unsafe\s+(def|instance|abbrev|structure|inductive|opaque|axiom|theorem|partial)\b|maxHeartbeats\s+0\b",
     re.M,
 )
 
